@@ -162,6 +162,14 @@ def plan(n_per_file, seed):
     print(len(out), "mutants planned over", len(anchors()), "files")
 
 
+def _tests(cmd, **kw):
+    """The repository's suite; a hang (some printcore mutants never let the threads end) counts as killed."""
+    try:
+        return subprocess.run(cmd, **kw)
+    except subprocess.TimeoutExpired:
+        return subprocess.CompletedProcess(cmd, 124, "", "timeout")
+
+
 def run(worker, nworkers):
     plan_ = json.load(open(os.path.join(OUT, "plan.json")))
     wt = f"/tmp/mut-{worker}"
@@ -188,11 +196,11 @@ def run(worker, nworkers):
                 open(path, "w").write(ast.unparse(new) + "\n")
                 before = orig.splitlines()[m["site"][1] - 1].strip()
                 rec["line"] = before[:160]
-                t = subprocess.run(["/venv/bin/python", "-m", "pytest", "-q", "-x", "-p", "no:cacheprovider",
+                t = _tests(["/venv/bin/python", "-m", "pytest", "-q", "-x", "-p", "no:cacheprovider",
                                     "--timeout=120", "tests", "--deselect",
                                     "tests/test_file_writer.py::test_write_to_invalid_path", "--deselect",
                                     "tests/test_printrun_core.py::TestConnect::test_bad_ports"],
-                                   cwd=wt, capture_output=True, text=True)
+                                   cwd=wt, capture_output=True, text=True, timeout=900)
                 if t.returncode != 0:
                     rec["status"] = "killed-by-repo-tests"
                 else:
